@@ -260,10 +260,10 @@ theorem abort_stops (pruneObjs : List Live) (localNs : List String) (s : St) (t 
     simp only []
     rcases h with h | h | h
     · rw [he] at h; cases h
-    · exact ⟨"watcher", by simp [St.emit, h]⟩
-    · by_cases hw : r.1.watcherFailed = true
-      · exact ⟨"watcher", by simp [St.emit, hw]⟩
-      · exact ⟨"canceled", by simp [St.emit, hw, h]⟩
+    · by_cases hc : r.1.cancelled = true
+      · exact ⟨"canceled", by simp [St.emit, hc]⟩
+      · exact ⟨"watcher", by simp [St.emit, hc, h]⟩
+    · exact ⟨"canceled", by simp [St.emit, h]⟩
 
 end CliUtils.Props.C01
 
